@@ -1133,29 +1133,42 @@ func wrapAny(val Node, targetType *Type) Node {
 	if targetType == GENERIC_ARRAY || targetType == GENERIC_MAP { // generic builtins
 		return val
 	}
-	if valType == EMPTY_ARRAY {
-		switch v := val.(type) {
-		case *ArrayLiteral:
-			v.T = targetType
-			return v
-		case *BinaryExpression:
-			v.Left = wrapAny(v.Left, targetType)
+	// Expressions that only contain constants are converted like constants:
+	// the conversion is applied to the literals they are made of.
+	switch v := val.(type) {
+	case *GroupExpression:
+		v.Expr = wrapAny(v.Expr, targetType)
+		return v
+	case *BinaryExpression: // array concatenation and repetition
+		v.Left = wrapAny(v.Left, targetType)
+		if v.Op == OP_PLUS {
 			v.Right = wrapAny(v.Right, targetType)
+		}
+		v.T = targetType
+		return v
+	case *SliceExpression:
+		v.Left = wrapAny(v.Left, targetType)
+		v.T = targetType
+		return v
+	case *IndexExpression:
+		v.Left = wrapAny(v.Left, &Type{Name: v.Left.Type().Name, Sub: targetType})
+		v.T = targetType
+		return v
+	case *DotExpression:
+		v.Left = wrapAny(v.Left, &Type{Name: v.Left.Type().Name, Sub: targetType})
+		v.T = targetType
+		return v
+	}
+	if valType == EMPTY_ARRAY {
+		if v, ok := val.(*ArrayLiteral); ok {
 			v.T = targetType
-			return v
-		case *GroupExpression:
-			v.Expr = wrapAny(v.Expr, targetType)
 			return v
 		}
 		panic(fmt.Sprintf("internal error: untyped array: %s incompatible types: target %v, value %v", val.Token().Location(), targetType, valType))
 	}
 	if valType == EMPTY_MAP {
-		switch v := val.(type) {
-		case *MapLiteral:
+		if v, ok := val.(*MapLiteral); ok {
 			v.T = targetType
-			return v
-		case *GroupExpression:
-			v.Expr = wrapAny(v.Expr, targetType)
 			return v
 		}
 		panic(fmt.Sprintf("internal error: untyped map: %s incompatible types: target %v, value %v", val.Token().Location(), targetType, valType))
